@@ -31,6 +31,7 @@ M2 = [
     np.array([[4.0, 1.0], [5.0, 0.0], [2.0, 2.5], [7.0, 0.5], [6.5, 3.0]]),  # 5 rows, shares a row with 0
     np.array([[0.0, 3.0], [0.0, 3.0], [9.0, 7.5]]),  # 3 rows with a duplicate
     np.array([[0.5, 0.5], [1.5, 2.0], [2.5, 1.0], [3.5, 3.0], [1.0, 1.0]]),  # 5 rows
+    np.array([[2.0, 2.0], [2.0, 2.0], [0.0, 1.0], [5.0, 3.0]]),  # 4 rows; the leading rows hold a single value
 ]
 M1 = [m[:, :1].copy() for m in M2]
 
@@ -166,6 +167,7 @@ CFGS = [
     ("CDBD", {"detect_batch": 3, "statistic": "stdev", "significance": 0.5}, True, 2),
     ("CDBD", {"detect_batch": 2, "statistic": "tstat", "significance": 0.3, "subsets": 3, "divergence": "H"}, False, 2),
     ("KdqTreeBatch", {"alpha": 0.4, "bootstrap_samples": 10, "count_ubound": 1}, True, 20),
+    ("KdqTreeBatch", {"alpha": 0.6, "bootstrap_samples": 10, "count_ubound": 2}, True, 20),
     ("NNDVI", {"k_nn": 2, "sampling_times": 8, "alpha": 0.3}, True, 4),
     ("NNDVI", {"k_nn": 1, "sampling_times": 8, "alpha": 0.6}, True, 4),
 ]
@@ -176,8 +178,8 @@ def tasks(tier, seed):
     for ci, (name, params, decisions, cost) in enumerate(CFGS):
         # single permuted position, batches up to 5 rows
         menu = [0, 1, 2, 3] if tier == "thorough" else [0, 1, 2]
-        if name == "KdqTreeBatch" and tier == "quick":
-            menu = [0, 2]
+        if name == "KdqTreeBatch":
+            menu = [0, 4] if tier == "quick" else [0, 1, 2, 4]
         depth = 3 if tier == "thorough" else 2
         if name in ("HDDDM", "CDBD") and params["detect_batch"] == 3:
             depth = 3  # the first decision is taken on the 3rd test batch
@@ -200,7 +202,7 @@ def tasks(tier, seed):
             )
         # two permuted positions, batches of <= 4 rows only
         if tier == "thorough" or name in ("CDBD", "NNDVI"):
-            base2 = {"id": 100 + ci, "params": params, "decisions": decisions, "menu": [0, 2], "max_perm": 2}
+            base2 = {"id": 100 + ci, "params": params, "decisions": decisions, "menu": [0, 2] if name != "KdqTreeBatch" else [0, 4], "max_perm": 2}
             for first in sysobj.alphabet(base2, st0, 0):
                 out.append(
                     {
